@@ -92,6 +92,9 @@ func main() {
 				lhs = lhs[:i]
 			}
 			fmt.Fprintf(w, "%s => %s\n", lhs, execLine(lhs))
+			// flushed line by line: when the process dies (a panic in a goroutine nobody recovers,
+			// a fatal runtime error) the first unanswered line is the one being executed
+			w.Flush()
 		}
 	default:
 		fmt.Fprintln(os.Stderr, "unknown subcommand")
